@@ -42,9 +42,12 @@ pub fn gen_flow(
             }
             let raises = raises.into_iter().map(Result::unwrap).collect();
 
+            // the arms only catch what the handled expression raises: restore the caught set afterwards
             let raises_before = env.raises_caught.clone();
-            let outer_env = generate(expr_or_stmt, &env.raises_caught(&raises), ctx, constr)?
-                .raises_caught(&raises_before);
+            let outer_env = Environment {
+                raises_caught: raises_before,
+                ..generate(expr_or_stmt, &env.raises_caught(&raises), ctx, constr)?
+            };
 
             constrain_cases(ast, &None, cases, &outer_env, ctx, constr)
         }
